@@ -204,7 +204,7 @@ func (*hctx) Run(rc *core.RunCtx) *core.RunResult {
 
 	var stack *ctxstack.Stack
 	nOps := 3 + t.Intn(10)
-	nInts := t.Intn(4)
+	nInts := t.Intn(5)
 	maxDepth := 1 + t.Intn(5)
 	type planned struct {
 		kind string
@@ -218,6 +218,9 @@ func (*hctx) Run(rc *core.RunCtx) *core.RunResult {
 	intGaps := make([]int, nInts)
 	for i := range intGaps {
 		intGaps[i] = t.Intn(40)
+		if t.Intn(2) == 0 {
+			intGaps[i] = t.Intn(300) // late: the stack has had time to grow and shrink
+		}
 	}
 	var descr []string
 
@@ -334,6 +337,24 @@ func (*hctx) Run(rc *core.RunCtx) *core.RunResult {
 				descr = append(descr, "stop")
 			}
 		}
+		// closing observations: whatever the interrupts did must be visible to somebody
+		for k := 0; k < 3; k++ {
+			for y := 0; y < 25; y++ {
+				simrt.Yield(siteCtxE)
+			}
+			if hist.n >= 60 {
+				break
+			}
+			hi := hist.invoke(0, ctxOp{Kind: "observe"})
+			var c []int
+			for _, e := range entries {
+				if e.ctx.Err() != nil {
+					c = append(c, e.id)
+				}
+			}
+			hist.ret(hi, ctxOut{Cancelled: fmt.Sprint(c)})
+		}
+		descr = append(descr, "observe*3")
 	})
 	sim.Spawn("I", false, func() {
 		for _, g := range intGaps {
